@@ -371,6 +371,15 @@ def named_chains(R, spec):
         (Integer, [(dict(ge=0), '-1'), (dict(le=100), '101'), (dict(gt=1), '1')], '50'),
         (Decimal, [(dict(ge=_d.Decimal('0.5')), '0.25'), (dict(le=_d.Decimal('9.5')), '10'), (dict(gt=_d.Decimal('1')), '1')], '2.5'),
         (Unicode, [(dict(values=['aa', 'bb', 'cccccc']), 'zz'), (dict(max_len=4), 'cccccc')], 'aa'),
+        # an inclusive and an exclusive bound of the same value on one side, given in one step or in two, in either order
+        (Integer, [(dict(ge=5), '4'), (dict(gt=5), '5')], '6'),
+        (Integer, [(dict(gt=5), '5'), (dict(ge=5), '4')], '6'),
+        (Integer, [(dict(le=10), '11'), (dict(lt=10), '10')], '9'),
+        (Integer, [(dict(lt=10), '10'), (dict(le=10), '11')], '9'),
+        (Integer, [(dict(ge=5, gt=5), '5')], '6'),
+        (Integer, [(dict(le=10, lt=10), '10')], '9'),
+        (Decimal, [(dict(lt=_d.Decimal('2.5')), '2.5'), (dict(le=_d.Decimal('2.5')), '2.6')], '1.5'),
+        (Decimal, [(dict(ge=_d.Decimal('0.5'), gt=_d.Decimal('0.5')), '0.5'), (dict(le=_d.Decimal('9.5'), lt=_d.Decimal('9.5')), '9.5')], '2.5'),
     ]
     n = 0
     for base, steps, good in families:
